@@ -244,9 +244,10 @@ pub fn render(log: &[crate::sched::Logged], addrs: &[(String, usize, usize, usiz
     }
 }
 
-pub fn run_scenario(sc: &Scenario, policy: Policy, run_id: u64, lines: &mut Vec<String>) {
+pub fn run_scenario(sc: &Scenario, policy: Policy, run_id: u64, lines: &mut Vec<String>, starve: Option<&str>) {
     DROPS.lock().unwrap().clear();
     let sched = Sched::new(policy.clone());
+    sched.starve(starve);
     nucleo::verif::install(Box::new(SinkRef(sched.clone())));
     set_role("main");
     sched.user("reset", format!("\"run\":{},\"scenario\":\"{}\",\"capacity\":{},\"cols\":{},\"prefill\":{},\"nthreads\":{}", run_id, sc.name, sc.capacity, sc.cols, sc.prefill, sc.threads.len()));
@@ -325,6 +326,11 @@ fn scenarios(thorough: bool, rng: &mut StdRng) -> Vec<Scenario> {
     let mut b = s("alloc-race-3", 0, 2, 20, vec![vec![Push(1), Get(32)], vec![Push(2), Get(33)], vec![Extend(vec![3, 4], 2), Get(34), Count]]);
     b.pre_extend = 12;
     v.push(b);
+    // a batch that triggers the eager allocation of the next bucket while another thread allocates it lazily
+    v.push(s("eager-race", 0, 1, 20, vec![vec![Extend((1..=10).collect(), 10), Get(32)], vec![Push(11), Push(12), Push(13), Get(32), Get(33)]]));
+    v.push(s("eager-race-2", 0, 1, 22, vec![vec![Extend((1..=8).collect(), 8), Count], vec![Push(11), Push(12), Push(13), Push(14), Get(32), Get(33)]]));
+    // a batch that crosses a bucket boundary and ends in the last eighth of its last bucket
+    v.push(s("eager-cross", 0, 1, 20, vec![vec![Extend((1..=70).collect(), 70)], vec![Push(100), Get(89), Count]]));
     v.push(s("panic-push", 0, 1, 0, vec![vec![PushPanic(1), Push(2)], vec![Push(3), Get(0)]]));
     v.push(s("panic-extend", 0, 1, 0, vec![vec![ExtendPanic(vec![1, 2, 3], 1)], vec![Push(4), Get(0), Get(1)]]));
     v.push(s("count-snapshot", 0, 1, 2, vec![vec![Push(1), Push(2)], vec![Count, Snapshot(0), Count]]));
@@ -375,16 +381,14 @@ fn scenarios(thorough: bool, rng: &mut StdRng) -> Vec<Scenario> {
     v
 }
 
-pub fn run(tier: &str, seed: u64, shards: usize, outdir: &str, only: Option<&str>) {
+pub fn run(tier: &str, seed: u64, shards: usize, outdir: &str, only: Option<&str>, shard_sel: Option<usize>, from: u64) {
     std::fs::create_dir_all(outdir).unwrap();
     let thorough = tier == "thorough";
     let mut rng = StdRng::seed_from_u64(seed ^ 0xB0C);
     let scs = scenarios(thorough, &mut rng);
     let per = if thorough { 200 } else { 24 };
     std::panic::set_hook(Box::new(|_| {}));
-    let mut files: Vec<std::io::BufWriter<std::fs::File>> = (0..shards)
-        .map(|k| std::io::BufWriter::new(std::fs::File::create(format!("{}/shard-{:02}.ndjson", outdir, k)).unwrap()))
-        .collect();
+    let mut files: std::collections::HashMap<usize, std::io::BufWriter<std::fs::File>> = std::collections::HashMap::new();
     let mut run_id = 0u64;
     for sc in &scs {
         if let Some(o) = only {
@@ -394,17 +398,33 @@ pub fn run(tier: &str, seed: u64, shards: usize, outdir: &str, only: Option<&str
         }
         for k in 0..per {
             run_id += 1;
+            let shard = (run_id as usize) % shards;
+            if let Some(sel) = shard_sel {
+                if sel != shard {
+                    continue;
+                }
+            }
+            if run_id < from {
+                continue;
+            }
+            // marker for the driver: if the process dies (heap corruption, segfault), this is the run that did it
+            let _ = std::fs::write(format!("{}/shard-{:02}.current", outdir, shard), format!("{{\"run\":{},\"scenario\":\"{}\"}}", run_id, sc.name));
             let mut lines = Vec::new();
             let pol = if k == 0 { Policy::Free } else { Policy::Random(seed.wrapping_mul(7919).wrapping_add(run_id), 150) };
-            run_scenario(sc, pol, run_id, &mut lines);
-            let f = &mut files[(run_id as usize) % shards];
+            // in half of the runs one thread is starved: it stays parked at its next operation while the others run
+            let starve = match k % 4 {
+                1 => Some("w1"),
+                3 => Some("w2"),
+                _ => None,
+            };
+            run_scenario(sc, pol, run_id, &mut lines, starve);
+            let path = format!("{}/shard-{:02}.ndjson", outdir, shard);
+            let f = files.entry(shard).or_insert_with(|| std::io::BufWriter::new(std::fs::OpenOptions::new().append(true).create(true).open(&path).unwrap()));
             for l in lines {
                 writeln!(f, "{}", l).unwrap();
             }
+            f.flush().unwrap();
         }
-    }
-    for f in files.iter_mut() {
-        f.flush().unwrap();
     }
     let _ = std::panic::take_hook();
     println!("{{\"runs\":{},\"scenarios\":{},\"shards\":{}}}", run_id, scs.len(), shards);
